@@ -49,10 +49,11 @@ fn build_body(b: &mut InstrSeqBuilder, trace: FunctionId, results: &[ValType], s
                 b.i64_const(0x5EED_0002_0000_0003);
             }
             ValType::F32 => {
-                b.f32_const(f32::from_bits(0x4049_0fdb));
+                // a signalling NaN: must come out bit for bit
+                b.f32_const(f32::from_bits(0x7fa0_0001));
             }
             ValType::F64 => {
-                b.f64_const(f64::from_bits(0x4009_21fb_5444_2d18));
+                b.f64_const(f64::from_bits(0x7ff4_0000_0000_0001));
             }
             ValType::V128 => {
                 b.const_(Value::V128(0x5EED_0004_0000_0000_0000_0000_0000_0005));
